@@ -406,7 +406,9 @@ fn run_parent(p: &PropDef, tier: Tier, seed: u64) -> i32 {
                             "the analysing process was killed (native stack overflow or abort) while running this case",
                             case,
                         );
-                        if p.id == "C01" {
+                        // C14 and C15 work on judgement sets that no bytecode can produce (fixed arrays,
+                        // arbitrary spans), so a death there cannot be handed to C01: it is their own
+                        if p.id == "C01" || (matches!(p.id, "C14" | "C15") && p.describe.is_some()) {
                             let path = save_found(p.id, &v);
                             violations.push((v, path));
                         } else {
@@ -783,7 +785,7 @@ fn fuzz_stage(p: &PropDef, seed: u64, secs: u64, known: &KnownFindings) -> FuzzS
             let rf = std::fs::read_to_string(f).ok().and_then(|s| serde_json::from_str::<core::ReplayFile>(&s).ok());
             match (out, rf) {
                 (Ok(o), Some(rf)) => {
-                    let confirmed = o.status.code() == Some(1) || (o.status.code().is_none() && p.id == "C01");
+                    let confirmed = o.status.code() == Some(1) || (o.status.code().is_none() && matches!(p.id, "C01" | "C14" | "C15"));
                     if confirmed {
                         if !st.violations.iter().any(|(v, _)| v.signature == rf.signature) {
                             st.violations.push((Violation::new(rf.signature, rf.detail, rf.case), f.clone()));
